@@ -147,6 +147,38 @@ def podOnLabels (p : Pod) (ls : Labels) (taints : List Taint) (cands : List Stri
 
 def firstSome (l : List (Option String)) : Option String := l.findSome? id
 
+/-! ### Volume topology (VolumeBinding / VolumeZone plugins)
+
+A pod that mounts a PersistentVolumeClaim can only run on a node from which EVERY one of its volumes is reachable: a bound
+claim's PersistentVolume must admit the node through its required node affinity (OR of AND-ed terms), an unbound claim is
+provisioned for the node through its StorageClass (WaitForFirstConsumer), whose allowedTopologies (OR of AND-ed terms) must
+admit the node.  A pod whose claim does not exist, is bound to a volume that does not exist, or is unbound without a usable
+storage class (none, unknown, or binding mode Immediate) is unschedulable everywhere. -/
+
+/-- the topology alternatives of one volume of pod `p` (`[]` = reachable from everywhere), or why the pod cannot be scheduled -/
+def volumeTopology (s : Scenario) (p : Pod) (v : Volume) : Except String (List (List KExpr)) :=
+  match s.pvc? p.ns v.claim with
+  | none => .error "does not exist"
+  | some c =>
+    if c.volumeName != "" then
+      match s.pv? c.volumeName with
+      | none => .error s!"is bound to the PersistentVolume {c.volumeName}, which does not exist"
+      | some pv => .ok pv.terms
+    else if c.storageClass == "" then .error "is unbound and names no storage class"
+    else match s.storageClass? c.storageClass with
+      | none => .error s!"is unbound and its storage class {c.storageClass} does not exist"
+      | some sc =>
+        if sc.immediate then .error s!"is unbound although its storage class {c.storageClass} binds immediately" else .ok sc.topologies
+
+/-- every volume of `p` is reachable from the node(s) described by `sat` (does a term hold there?); `wher` names the place -/
+def podVolumesOK (s : Scenario) (p : Pod) (sat : List KExpr → Bool) (wher : String) : Option String :=
+  firstSome (p.volumes.map (fun v =>
+    match volumeTopology s p v with
+    | .error w => some s!"pod {p.name}: its volume {v.name} (claim {p.ns}/{v.claim}) {w}, so the pod is unschedulable, but it was placed on {wher}"
+    | .ok terms =>
+      if terms.isEmpty || terms.any sat then none
+      else some s!"pod {p.name}: its volume {v.name} (claim {p.ns}/{v.claim}) is not reachable from {wher}: no topology term of the volume holds there"))
+
 /-- all pods newly placed on an existing node -/
 def existingOK (s : Scenario) (n : Node) (newPods : List Pod) (cands : List String) : Option String :=
   match s.it? n.it with
@@ -156,6 +188,9 @@ def existingOK (s : Scenario) (n : Node) (newPods : List Pod) (cands : List Stri
     let taints := nodeTaints s n
     let perPod := firstSome (newPods.map (fun p => podOnLabels p ls taints cands))
     if perPod.isSome then perPod else
+    -- every volume of every new pod is reachable from this node
+    let vols := firstSome (newPods.map (fun p => podVolumesOK s p (fun t => t.all (exprOK ls)) s!"node {n.name} (zone {n.zone})"))
+    if vols.isSome then vols else
     if n.deleting then some s!"node {n.name} is marked for deletion but received pods" else
     -- host ports among everything on the node
     match firstPortConflict (newPods.map (·.name)) ((n.pods ++ newPods).flatMap podPorts) with
@@ -165,15 +200,27 @@ def existingOK (s : Scenario) (n : Node) (newPods : List Pod) (cands : List Stri
       let all := n.pods ++ newPods
       let expected := s.daemonsets.filter (fun d => dsOnNode d ls taints)
       let boundDaemons := n.pods.filter (·.daemon)
-      let remDaemonCPU := max 0 ((expected.foldl (fun a d => a + d.cpu) 0) - sumCPU boundDaemons)
-      let remDaemonMem := max 0 ((expected.foldl (fun a d => a + d.mem) 0) - sumMem boundDaemons)
-      if sumCPU all + remDaemonCPU > it.allocCPU then
-        some s!"node {n.name}: cpu requests {sumCPU all}m + expected daemons {remDaemonCPU}m exceed allocatable {it.allocCPU}m"
-      else if sumMem all + remDaemonMem > it.mem then
-        some s!"node {n.name}: memory requests {sumMem all}Mi + expected daemons {remDaemonMem}Mi exceed allocatable {it.mem}Mi"
-      else if (all.length : Int) > it.pods then
-        some s!"node {n.name}: {all.length} pods exceed the pod capacity {it.pods}"
-      else none
+      let over (ds : List DaemonSet) : Option String :=
+        let remDaemonCPU := max 0 ((ds.foldl (fun a d => a + d.cpu) 0) - sumCPU boundDaemons)
+        let remDaemonMem := max 0 ((ds.foldl (fun a d => a + d.mem) 0) - sumMem boundDaemons)
+        if sumCPU all + remDaemonCPU > it.allocCPU then
+          some s!"node {n.name}: cpu requests {sumCPU all}m + expected daemons {remDaemonCPU}m exceed allocatable {it.allocCPU}m"
+        else if sumMem all + remDaemonMem > it.mem then
+          some s!"node {n.name}: memory requests {sumMem all}Mi + expected daemons {remDaemonMem}Mi exceed allocatable {it.mem}Mi"
+        else none
+      match over expected with
+      | some w =>
+        -- CLASSIFIES (never excuses): the excess is exactly the requests of daemonsets that are expected on the node (they
+        -- tolerate every NoSchedule / NoExecute taint) but do not tolerate one of its PreferNoSchedule taints.  Karpenter's
+        -- reservation for an EXISTING node leaves such a daemon out (`isDaemonPodCompatibleWithNode` wants every taint
+        -- tolerated) unless `isDaemonPodCompatible` happened to add the PreferNoSchedule toleration to the shared daemon pod
+        -- before, which it only does when some NodePool still has an instance type option (known finding).
+        let strict := expected.filter (fun d => taints.all (fun t => t.effect != "PreferNoSchedule" || d.tolerations.any (fun tol => tolerates tol t)))
+        if (over strict).isNone then some ("[existing-node-daemon-prefernoschedule] " ++ w) else some w
+      | none =>
+        if (all.length : Int) > it.pods then
+          some s!"node {n.name}: {all.length} pods exceed the pod capacity {it.pods}"
+        else none
 
 /-! ### New NodeClaims: every instance type it may be launched as -/
 
@@ -272,7 +319,11 @@ def claimOK (s : Scenario) (c : Claim) (cands : List String) : Option String :=
               let others := pods.filter (fun q => q.name != pd.name)
               let ctx : List KExpr := p.reqs.map (fun r => { key := r.key, op := r.op, vals := r.vals }) ++
                 others.flatMap (fun q => q.required.flatten ++ q.preferred.flatMap (·.exprs))
-              (podOnDomain dom pd cands ctx).map (fun w => s!"{w} (launched as {itn} in {o.zone}/{o.ct})")))))))
+              match (podOnDomain dom pd cands ctx).map (fun w => s!"{w} (launched as {itn} in {o.zone}/{o.ct})") with
+              | some w => some w
+              | none =>
+                -- every zone the NodeClaim may still be launched in must reach every volume of the pod
+                podVolumesOK s pd (fun t => t.all (exprOnDomain dom)) s!"a NodeClaim that may be launched as {itn} in {o.zone}/{o.ct}"))))))
 
 /-- the whole outcome of a pass -/
 def outcomeOK (s : Scenario) (out : Outcome) (cands : List String) : Option String :=
